@@ -735,7 +735,7 @@ var strLits = []string{"", "a", "b", "ab", "neo", "go", "key", "x1", "hello", "Z
 
 // strExpr returns a string expression and a bound of its length. Results of
 // `+` go through norm (a re-slice inside a function), see the directed cases
-// "string-concatenation-then-equality" and "slice-of-constant-string".
+// "string-concatenation-result-is-not-a-string-item" and "slice-of-constant-string".
 func (g *gen) strExpr(d int) (string, int) {
 	for try := 0; try < 4; try++ {
 		switch g.r.Intn(8) {
@@ -1126,7 +1126,7 @@ func (g *gen) assign(depth int) {
 			g.w("%s[%s %% 6] = %s", v.name, k, e)
 		} else if v := g.pick(tMapSI, false); v != nil {
 			// keys are literals or unmodified string values (see the directed
-			// case "string-concat-map-key")
+			// case "string-concatenation-result-is-not-a-string-item")
 			e, iv := g.intExpr(1)
 			e, _ = fit(e, iv, v.bound)
 			g.f("map-store")
@@ -1220,7 +1220,7 @@ func (g *gen) assign(depth int) {
 				g.w("%s[(%s %% 4) + 100] = %d", v.name, k, g.r.Intn(50))
 			}
 		} else if d, s := g.pick(tBytes, false), g.pick(tBytes, false); d != nil && s != nil && !d.ro && !d.mayNil && !s.mayNil {
-			// copy with a nil operand: see the directed case "copy-with-nil-slice"
+			// copy with a nil operand: see the directed case "nil-slice-operations"
 			n := g.fresh("n")
 			g.f("copy")
 			g.markImpure(d)
@@ -1493,7 +1493,7 @@ func (g *gen) switchStmt(depth int) {
 	cases = cases[:2+g.r.Intn(len(cases)-1)]
 	if kind == 2 {
 		// cases that are not constants are evaluated in order: `default` goes
-		// last, see the directed case "switch-early-default-swap:case-order"
+		// last, see the directed case "switch-with-early-default-reorders-clauses"
 		for i, c := range cases {
 			if c == "default:" {
 				cases = append(append(cases[:i:i], cases[i+1:]...), c)
@@ -1502,7 +1502,7 @@ func (g *gen) switchStmt(depth int) {
 		}
 	}
 	// fallthrough only when `default` is the last clause or absent: see the
-	// directed case "fallthrough-with-early-default"
+	// directed case "switch-with-early-default-reorders-clauses"
 	ft := true
 	for i, c := range cases {
 		if c == "default:" && i != len(cases)-1 {
